@@ -1,4 +1,7 @@
 import Gocc.Driver.Proto
+import Gocc.Model.SemCheck
+import Gocc.Model.GenCert
+import Gocc.Model.GenVCert
 import Gocc.Model.LexGen
 import Gocc.Model.Parse
 import Gocc.Model.Scan
@@ -390,43 +393,6 @@ def opC05 (a : Art) : String :=
   | some (.error _) => "panic"
   | none => "nosyntax"
 
-def ntsOf (body : List Sym) : List Nat := body.filterMap fun | .nt B => some B | _ => none
-
-partial def genProd (G : NGrammar) (acc : List (Nat × Nat)) : List (Nat × Nat) :=
-  match (List.range G.prods.size).find? fun p =>
-      !hasNT acc (G.head p) && (ntsOf (G.body p)).all (hasNT acc) with
-  | some p => genProd G ((G.head p, p) :: acc)
-  | none => acc
-
-partial def genNull (G : NGrammar) (acc : List (Nat × Nat)) : List (Nat × Nat) :=
-  match (List.range G.prods.size).find? fun p =>
-      !hasNT acc (G.head p) && (G.body p).all fun | .t _ => false | .nt B => hasNT acc B with
-  | some p => genNull G ((G.head p, p) :: acc)
-  | none => acc
-
-def firstCands (G : NGrammar) (null : List (Nat × Nat)) (acc : List (Nat × Nat × Nat × Nat)) :
-    List (Nat × Nat × Nat × Nat) :=
-  (List.range G.prods.size).flatMap fun p =>
-    let body := G.body p
-    (List.range body.length).flatMap fun i =>
-      if (body.take i).all (fun | .t _ => false | .nt B => hasNT null B) then
-        match body[i]? with
-        | some (.t b) => [(G.head p, b, p, i)]
-        | some (.nt B) => (acc.filter (·.1 == B)).map fun x => (G.head p, x.2.1, p, i)
-        | none => []
-      else []
-
-partial def genFirst (G : NGrammar) (null : List (Nat × Nat)) (acc : List (Nat × Nat × Nat × Nat)) :
-    List (Nat × Nat × Nat × Nat) :=
-  match (firstCands G null acc).find? fun x => !acc.any fun y => y.1 == x.1 && y.2.1 == x.2.1 with
-  | some x => genFirst G null (x :: acc)
-  | none => acc
-
-def genVCert (G : NGrammar) : VCert :=
-  let null := genNull G []
-  { prod := genProd G [], null := null, first := genFirst G null [] }
-
-
 /-- `validate id`: run the verified validator on the tables with the generator's item sets as certificate -/
 def opValidate (a : Art) : String :=
   match a.lr with
@@ -435,14 +401,10 @@ def opValidate (a : Art) : String :=
     let G := ngrammarOf (augment a.g.syn) T.terminals T.nts
     let anyRec := T.canRecover.any id
     let c := certOf r.states
-    let tIdx (s : String) : Nat := (T.terminals.idxOf? s).getD 0
-    let cla : CertLA := r.states.map fun st => (st.items.map fun i => (i.p, i.d, tIdx i.la)).eraseDups
-    let fc : FirstCert :=
-      { nullable := (List.range T.nts.length).filter fun k => (r.ctx.fs.get T.nts[k]!).contains "empty"
-        first := (List.range T.nts.length).flatMap fun k =>
-          ((r.ctx.fs.get T.nts[k]!).filter (· != "empty")).map fun t => (k, tIdx t) }
+    let cla : CertLA := claOf r          -- Model/GenCert.lean (the certificates of C02_genParser_complete)
+    let fc : FirstCert := fcOf r
     let b (x : Bool) : Nat := if x then 1 else 0
-    s!"safe={b (safe G T c && safeEnds T c)} complete={b (firstOk G fc && complete G T fc cla)} valid={b (validItems G T cla (genVCert G))} acts={b (kindsTotal T)} recover={b anyRec} recwf={b (recWFb T ((T.terminals.idxOf? "error").getD 0))} noshifteof={b (noShiftEOFb T)}"
+    s!"safe={b (safe G T c && safeEnds T c)} complete={b (firstOk G fc && complete G T fc cla)} valid={b (validItems G T cla (vcertOf G))} acts={b (kindsTotal T)} recover={b anyRec} recwf={b (recWFb T ((T.terminals.idxOf? "error").getD 0))} noshifteof={b (noShiftEOFb T)}"
   | some (.error _) => "panic"
   | none => "nosyntax"
 
@@ -470,6 +432,15 @@ def opFeParse (args : List String) : Option String := do
   | .accept _ => pure s!"accept scans={ps.ntok}"
   | .synErr .. => pure s!"synerr scans={ps.ntok}"
   | _ => pure o.show
+
+/-- `semcheck id`: verdict of the semantic checks (Model/SemCheck.lean) on the grammar value -/
+def opSemCheck (a : Art) : String :=
+  match Gocc.semCheck a.g with
+  | .ok () => "ok"
+  | .error (.dupDef id) => s!"dup {id}"
+  | .error (.emptyAlt h) => s!"emptyalt {h}"
+  | .error (.undefinedProd x) => s!"undefprod {x}"
+  | .error (.undefinedRegDef r u) => s!"undefregdef {r} {u}"
 
 def opTerminals (a : Art) : String :=
   " ".intercalate (a.terminals.map fun s => "x" ++ String.join (s.toUTF8.toList.map fun b =>
